@@ -1,14 +1,14 @@
-\* generation, one caller: every step of Mount/Check/Unmount with every environment choice
+\* trace validation; constants overridden per job (MPs, Blobs, config flags)
 CONSTANTS
     MPs = {"m1", "m2"}
     Blobs = {"b1"}
     Labs = {"ok", "bad", "skip", "none", "malformed", "mirror"}
     Ops = {"Mount", "Check", "Unmount"}
-    MaxCalls = 2
-    MaxConc = 1
-    MaxObj = 2
+    MaxCalls = 1000
+    MaxConc = 1000
+    MaxObj = 1000
     SameMp = FALSE
-    OneMount = TRUE
+    OneMount = FALSE
     AllowNoVerif = TRUE
     DisableVerif = FALSE
     NoPrefetch = TRUE
@@ -23,7 +23,8 @@ CONSTANTS
     CheckOwnKey = TRUE
     DoneAlways = TRUE
     BgRespectsPrio = TRUE
-INIT GenInit
-NEXT GenNext
-VIEW core
+SPECIFICATION TraceSpec
+CONSTRAINT HighWater
+INVARIANTS MountedIffInMap NoUnverifiedInMap DoDoneBalanced
+POSTCONDITION TraceAccepted
 CHECK_DEADLOCK FALSE
